@@ -289,9 +289,22 @@ theorem parse_two_div (s : SysDef Rat) (cs : List Char) (h : 1 < cs.count '/') :
   parseChars_two_div s cs h
 
 /-- `UnitSystem::parse` indexes `parts[1]` of a one-element vector (undefined behaviour) exactly
-for the strings that end in their only `/` -/
-theorem parse_ub_iff (cs : List Char) : parseUB cs = true ↔ ∃ a, '/' ∉ a ∧ cs = a ++ ['/'] :=
+for the strings that end in their only `/` — and only while the source does not refuse them first;
+the flag is read off `UnitSystem.cpp` by the translator on every run -/
+theorem parse_ub_iff (cs : List Char) :
+    parseUB cs = true ↔ parseRejectsTrailingSlash = false ∧ ∃ a, '/' ∉ a ∧ cs = a ++ ['/'] :=
   parseUB_iff cs
+
+/-- NO string reaches that undefined behaviour if and only if the guard is in the source (it is
+since fix ee5075475; reverting it makes the right-hand side `false` and the property-mode probe
+`parse.trailing_slash` fails on the real code) -/
+theorem parse_never_ub_iff : (∀ cs : List Char, parseUB cs = false) ↔ parseRejectsTrailingSlash = true :=
+  parse_never_ub_iff'
+
+/-- what the code does for these strings now: `parse` throws (any system, any `a` without `/`) -/
+theorem parse_trailing_slash_refused (s : SysDef Rat) (a : List Char) (ha : '/' ∉ a) :
+    parseChars s (a ++ ['/']) = none :=
+  parseChars_trailingSlash s _ ((trailingSlash_iff _).mpr ⟨a, ha, rfl⟩)
 
 /-- whatever `parse` accepts has a non-zero factor — all five systems, ALL strings -/
 theorem parse_factor_ne_zero (s : SysDef Rat) (hs : s ∈ systems Rat) (str : String) (d : Dim Rat) (f : Rat)
@@ -403,9 +416,10 @@ example : let s := sys.UNIT_TYPE_FIELD Rat
     getDimension s (String.ofList "Length".toList) = some ⟨some Spec.foot, 0⟩ ∧
     parse s "Energy/AbsoluteTemperature*Length*Time" = some ⟨some (Spec.btu / (5 / 9 * Spec.foot * Spec.day)), 0⟩ ∧
     parse s "/Length" = some ⟨some (1 / Spec.foot), 0⟩ := by decide +kernel
--- the undefined-behaviour strings, and near misses that are defined
-example : parseUB "Length/".toList = true ∧ parseUB "/".toList = true ∧ parseUB "Length*Time/".toList = true ∧
-    parseUB "/Length".toList = false ∧ parseUB "Length//".toList = false ∧ parseUB "".toList = false := by decide +kernel
+-- the trailing-slash strings, and near misses that are not; with the guard none of them is UB
+example : trailingSlash "Length/".toList = true ∧ trailingSlash "/".toList = true ∧ trailingSlash "Length*Time/".toList = true ∧
+    trailingSlash "/Length".toList = false ∧ trailingSlash "Length//".toList = false ∧ trailingSlash "".toList = false ∧
+    parse (sys.UNIT_TYPE_FIELD Rat) "Length/" = none ∧ '/' ∉ "Length*Time".toList := by decide +kernel
 -- string overloads on an offset dimension: 60 °F
 example : toSIStr (sys.UNIT_TYPE_FIELD Rat) "Temperature" 60 = some ((60 + Spec.dec 45967 2) * 5 / 9) ∧
     fromSIStr (sys.UNIT_TYPE_FIELD Rat) "Temperature" ((60 + Spec.dec 45967 2) * 5 / 9) = some 60 := by decide +kernel
@@ -418,10 +432,13 @@ example : ctxWitness.ContextDep := by
 -- keyword items: some rows of the table the theorem ranges over, incl. a multi-column one
 example : ("ZMFVD.0.DATA", ["Length", "1", "1"]) ∈ keywordItemDims ∧
     keywordItemDims.length > 1000 ∧ "Ymodule" ∈ keywordDimStrings := by decide +kernel
--- the open findings are real: the listed exceptions do fail
-example : Spec.deckSystems.all (fun s => (parse s "Giga*Pascal").isNone) = true ∧
+-- the remaining open finding is real (the listed exception does fail), the repaired ones hold, and the
+-- pre-fix entries would not: "Giga*Pascal" parses nowhere, geometric_volume_rate ≠ rb/day in FIELD
+example : Spec.deckSystems.all (fun s => !Spec.udaOk s ("WCONPROD_LIFT", "gas_surface_rate")) = true ∧
+    Spec.deckSystems.all (fun s => (parse s "Giga*Pascal").isNone) = true ∧
     Spec.udaOk (sys.UNIT_TYPE_FIELD Rat) ("WCONPROD_RESV", "geometric_volume_rate") = false ∧
-    Spec.udaOk (sys.UNIT_TYPE_METRIC Rat) ("WCONPROD_RESV", "geometric_volume_rate") = true := by decide +kernel
+    Spec.udaOk (sys.UNIT_TYPE_FIELD Rat) ("WCONPROD_RESV", "rate") = true ∧
+    ("GRID", "YMODULE", "Ymodule") ∈ fieldPropsUnits := by decide +kernel
 -- summary: Mscf/day · day = Mscf, Mscf/day ÷ stb/day = Mscf/stb in FIELD
 example : factorOf (sys.UNIT_TYPE_FIELD Rat) "gas_surface_rate" = Spec.day / Spec.mscf ∧
     ("gas_surface_rate", "liquid_surface_rate", "gas_oil_ratio") ∈ summaryDivUnit := by decide +kernel
